@@ -122,10 +122,7 @@ def oracle(c, out, D):
             if ((a[0] + e[0]) % w, (a[1] + e[1]) % h) != b:
                 return ("torus-path-destination", "shortest_torus_path %r from %r does not lead to %r on %dx%d" % (v, a, b, w, h))
             if hops(v) != dist:
-                key = "torus-path-hops"
-                if max(c["ks"]) >= TWO53 - 2 ** 40:
-                    key = "torus-path-float-key-rounds-up"
-                return (key, "shortest_torus_path %r has %d hops, graph distance = %d (random() numerators %r)"
+                return ("torus-path-hops", "shortest_torus_path %r has %d hops, graph distance = %d (random() numerators %r)"
                         % (v, hops(v), dist, c["ks"]))
         return None
     if fn == "ldf":
